@@ -54,6 +54,13 @@ func (c *Ctx) RunCases(n int, mk func(i int) ([]*History, error), judge Judge, o
 					}
 					c.Stats.Add("histories", 1)
 					c.Stats.Add("gen_ops", int64(len(obs)))
+					for _, o := range obs {
+						if g := h.Ops[o.OpIndex].Gen; g != nil && g.FileAge == "fresh" {
+							c.Stats.Add("file_age.fresh", 1)
+						} else {
+							c.Stats.Add("file_age.settled", 1)
+						}
+					}
 					if onObs != nil {
 						onObs(h, obs)
 					}
